@@ -552,6 +552,60 @@ theorem compat_decomp : ∀ (os : Shape) (s : List Nat), compat os s →
       | sym n => exact hnon _ rfl rfl
       | unknown => exact hnon _ rfl rfl
 
+/-- What firing of `MaterializeReshapeShape` tells us: the zero guard did not trigger, at most one non-int dim,
+and the new shape is the dim-wise translation. -/
+theorem materialize_fire_inv (os : Shape) (r : RRRepl)
+    (hfire : materializeReshapeRun false (some os) = .fire r) :
+    ((os.filter (fun d => !d.isInt)).length == 1 && os.any (fun d => d == .known 0)) = false ∧
+    (os.filter (fun d => !d.isInt)).length ≤ 1 ∧ r.shape = os.map matDim := by
+  simp only [materializeReshapeRun, Bool.false_eq_true, if_false] at hfire
+  split at hfire
+  · cases hfire
+  · rename_i hg
+    split at hfire
+    · rename_i hcount
+      refine ⟨(Bool.not_eq_true _).mp hg, hcount, ?_⟩
+      cases hfire; rfl
+    · cases hfire
+
+/-- The materialized target has a `0` exactly when the annotation has a static zero dim. -/
+theorem any_zero_matDim (os : Shape) :
+    (os.map matDim).any (· == 0) = os.any (fun d => d == .known 0) := by
+  induction os with
+  | nil => rfl
+  | cons d os ih =>
+    simp only [List.map_cons, List.any_cons, ih]
+    congr 1
+    cases d with
+    | known n =>
+      by_cases hn : n = 0
+      · subst hn; rfl
+      · have e1 : (matDim (.known n) == 0) = false := by simp [matDim]; omega
+        have e2 : (Dim.known n == Dim.known 0) = false := by simp [hn]
+        rw [e1, e2]
+    | sym _ => simp [matDim]
+    | unknown => simp [matDim]
+
+/-- A `-1` in the materialized target means at least one non-int dim. -/
+theorem any_neg1_matDim (os : Shape) (h : (os.map matDim).any (· == -1) = true) :
+    1 ≤ (os.filter (fun d => !d.isInt)).length := by
+  rw [← filter_neg1_matDim]
+  obtain ⟨t, ht, he⟩ := List.any_eq_true.mp h
+  exact List.length_pos_of_mem (List.mem_filter.mpr ⟨ht, he⟩)
+
+/-- G (guard): after the upstream fix, firing implies the materialized target never mixes `0` and `-1`. -/
+theorem materialize_fire_no_zero_neg (os : Shape) (r : RRRepl)
+    (hfire : materializeReshapeRun false (some os) = .fire r) :
+    ¬ (r.shape.any (· == 0) && r.shape.any (· == -1)) = true := by
+  obtain ⟨hg, hcount, hr⟩ := materialize_fire_inv os r hfire
+  rw [hr, any_zero_matDim]
+  intro h
+  simp only [Bool.and_eq_true] at h
+  have h1 := any_neg1_matDim os h.2
+  have : (os.filter (fun d => !d.isInt)).length = 1 := by omega
+  rw [this, h.1] at hg
+  exact absurd hg (by decide)
+
 /-- G (sound part): when the output annotation is consistent with the true output shape `s`, the input has
 as many elements as `s`, and the materialized target does not mix `0` and `-1`, the new
 `Reshape(allowzero=1)` produces `s`. -/
@@ -562,33 +616,41 @@ theorem materialize_sound_partial (os : Shape) (r : RRRepl) (sIn s : List Nat)
     (hno0 : ¬ (r.shape.any (· == 0) && r.shape.any (· == -1)) = true) :
     specReshape sIn r.shape true = some s := by
   have hc := compat_of_index os s hcons.1 hcons.2
-  simp only [materializeReshapeRun, Bool.false_eq_true, if_false] at hfire
-  split at hfire
-  · rename_i hcount
-    have hr : r.shape = os.map matDim := by
-      cases hfire; rfl
-    rw [hr] at hno0 ⊢
-    have h1 : (os.map matDim).any (· < -1) = false := by
-      simp only [List.any_eq_false, List.mem_map, decide_eq_true_eq]
-      rintro t ⟨d, _, rfl⟩; exact matDim_ge d
-    have h2 : ((os.map matDim).filter (· == -1)).length ≤ 1 := by
-      rw [filter_neg1_matDim]; exact hcount
-    have h3 : ((os.map matDim).any (· == 0) && (os.map matDim).any (· == -1)) = false := by
-      simpa using hno0
-    rw [specReshape_true sIn _ h1 h2 h3, hsize]
-    rcases compat_decomp os s hc hcount with h | ⟨sa, x, sb, he, hs⟩
-    · rw [h]; exact finishR_ofNat _ s rfl
-    · rw [he] at h3 ⊢
-      subst hs
-      have hany : (sa.map Int.ofNat ++ (-1) :: sb.map Int.ofNat).any (· == -1) = true := by simp
-      rw [hany, Bool.and_true] at h3
-      have h0 : (∀ x ∈ sa, ¬ x = 0) ∧ ∀ x ∈ sb, ¬ x = 0 := by
-        simpa [List.any_eq_false] using h3
-      have pa := prodNat_pos sa (fun d hd => Nat.pos_of_ne_zero (h0.1 d hd))
-      have pb := prodNat_pos sb (fun d hd => Nat.pos_of_ne_zero (h0.2 d hd))
-      apply finishR_one_neg _ sa sb x (Nat.mul_pos pa pb)
-      rw [prodNat_append, prodNat_cons, Nat.mul_assoc]
-  · cases hfire
+  obtain ⟨_, hcount, hr⟩ := materialize_fire_inv os r hfire
+  rw [hr] at hno0 ⊢
+  have h1 : (os.map matDim).any (· < -1) = false := by
+    simp only [List.any_eq_false, List.mem_map, decide_eq_true_eq]
+    rintro t ⟨d, _, rfl⟩; exact matDim_ge d
+  have h2 : ((os.map matDim).filter (· == -1)).length ≤ 1 := by
+    rw [filter_neg1_matDim]; exact hcount
+  have h3 : ((os.map matDim).any (· == 0) && (os.map matDim).any (· == -1)) = false := by
+    simpa using hno0
+  rw [specReshape_true sIn _ h1 h2 h3, hsize]
+  rcases compat_decomp os s hc hcount with h | ⟨sa, x, sb, he, hs⟩
+  · rw [h]; exact finishR_ofNat _ s rfl
+  · rw [he] at h3 ⊢
+    subst hs
+    have hany : (sa.map Int.ofNat ++ (-1) :: sb.map Int.ofNat).any (· == -1) = true := by simp
+    rw [hany, Bool.and_true] at h3
+    have h0 : (∀ x ∈ sa, ¬ x = 0) ∧ ∀ x ∈ sb, ¬ x = 0 := by
+      simpa [List.any_eq_false] using h3
+    have pa := prodNat_pos sa (fun d hd => Nat.pos_of_ne_zero (h0.1 d hd))
+    have pb := prodNat_pos sb (fun d hd => Nat.pos_of_ne_zero (h0.2 d hd))
+    apply finishR_one_neg _ sa sb x (Nat.mul_pos pa pb)
+    rw [prodNat_append, prodNat_cons, Nat.mul_assoc]
+
+/-- G (full soundness, after the upstream zero guard): whenever `MaterializeReshapeShape` fires on an annotation
+consistent with the true output shape `s`, the new `Reshape(allowzero=1)` on a same-sized input produces `s`. -/
+theorem materialize_sound (os : Shape) (r : RRRepl) (sIn s : List Nat)
+    (hfire : materializeReshapeRun false (some os) = .fire r)
+    (hcons : os.length = s.length ∧ ∀ i (h : i < os.length), ∀ k, os[i] = Dim.known k → s[i]! = k)
+    (hsize : prodNat sIn = prodNat s) :
+    specReshape sIn r.shape true = some s :=
+  materialize_sound_partial os r sIn s hfire hcons hsize (materialize_fire_no_zero_neg os r hfire)
+
+/-- G (witness now refused): the former counterexample annotation `[N, 0]` no longer fires. -/
+theorem materialize_zero_witness_refused :
+    materializeReshapeRun false (some [.sym "N", .known 0]) = .nofire := by decide
 
 /-- G (refutation): a symbolic dim beside a zero dim materializes to `[-1, 0]` with `allowzero=1`, which is a
 runtime error. -/
